@@ -478,7 +478,8 @@ def r3(ctx):
             ...
     """
     from ..expect import contains_any
-    ok, why = contains_any(P, b, [SK % "list(st.copy(without_values=True) for st in scoped_terms)", SK % "[st.copy(without_values=True) for st in scoped_terms]"])
+    SK2 = SK.replace("EncodedTermStructure(term, %s, list(scoped_cols))", "EncodedTermStructure(term=term, scoped_terms=%s, columns=list(scoped_cols))")
+    ok, why = contains_any(P, b, [k % v for k in (SK, SK2) for v in ("list(st.copy(without_values=True) for st in scoped_terms)", "[st.copy(without_values=True) for st in scoped_terms]")])
     ctx.check(ok, "C04.R3", "the recorded structure lists, per term, its scoped terms and the generated column names in generation order", b.where,
               ctx.construct(b, text="record structure"), f"structure recording: {why}")
 
